@@ -217,9 +217,28 @@ def r26_1(ctx, rep):
     for r in ast.walk(pa):
         if isinstance(r, ast.Return) and isinstance(r.value, ast.Tuple) and len(r.value.elts) == 2 and isinstance(r.value.elts[1], ast.Name):
             failed = r.value.elts[1].id
-    for n in walk_local(pa):
-        if isinstance(n, ast.If) and isinstance(n.test, ast.Name) and n.test.id in res and failed:
-            ok = any(("%s.append(" % failed) in norm(s) for s in n.orelse) and any((".extend(%s)" % n.test.id) in norm(s) for s in n.body)
+    if failed and res:
+        # path form of the sentence above: on every path where the result is falsy the file is appended to <failed>; <tree>.extend(<r>) is
+        # reached only where it is truthy, the append only where it is falsy
+        c3 = CFG(pa, R)
+
+        def _truth(g):
+            t, v = g.ast, g.taken
+            while isinstance(t, ast.UnaryOp) and isinstance(t.op, ast.Not):
+                t, v = t.operand, not v
+            if isinstance(t, ast.Compare) and len(t.ops) == 1 and isinstance(t.comparators[0], ast.Constant) and t.comparators[0].value is None \
+                    and isinstance(t.ops[0], (ast.Is, ast.IsNot)):
+                t, v = t.left, (v if isinstance(t.ops[0], ast.IsNot) else not v)
+            return (t.id, v) if isinstance(t, ast.Name) and t.id in res else None
+
+        assumes = [g for g in c3.nodes if g.kind == "assume" and _truth(g) is not None]
+        appends = [x for x in c3.stmts() if ("%s.append(" % failed) in norm(x.ast) and not isinstance(x.ast, (ast.If, ast.For, ast.While))]
+        extends = [x for x in c3.stmts() if any((".extend(%s)" % r_) in norm(x.ast) for r_ in res) and not isinstance(x.ast, (ast.If, ast.For, ast.While))]
+        falsy = [g for g in assumes if _truth(g)[1] is False]
+        ok = bool(appends) and bool(extends) and bool(falsy) \
+            and all(c3.must_pass(g.id, c3.exit, {x.id for x in appends}) is None for g in falsy) \
+            and all(any(_truth(g)[1] is True for g in c3.dominated_by(x.id, lambda y: y.kind == "assume" and _truth(y) is not None)) for x in extends) \
+            and all(any(_truth(g)[1] is False for g in c3.dominated_by(x.id, lambda y: y.kind == "assume" and _truth(y) is not None)) for x in appends)
     rep.ob(R, CLI + ":parse_all", "failed files collected", ok, "a file that failed to parse must be appended to the list of failed files that parse_all returns")
     # main: <files>, <failed> = parse_all(...); errors += len(<failed>)
     got = None
